@@ -55,10 +55,12 @@ fn elem_domain(kind: usize) -> Vec<Val> {
         1 => vec![Val::S("a".into()), Val::S("b".into())],
         2 => vec![Val::T(1, 2), Val::T(2, 1)],
         // distinct strings that spell the same number
-        _ => vec![Val::S("1".into()), Val::S("01".into()), Val::S("1.0".into())],
+        3 => vec![Val::S("1".into()), Val::S("01".into()), Val::S("1.0".into())],
+        // distinct integers that agree in their first 15 digits / are not exact as doubles
+        _ => vec![Val::I(1000000000000001), Val::I(1000000000000002), Val::I(9007199254740993)],
     }
 }
-const KINDS: usize = 4;
+const KINDS: usize = 5;
 
 /// one list operation: source text (may print) and its effect on the model (pushes expected lines)
 #[derive(Clone)]
@@ -125,21 +127,21 @@ fn list_ops(kind: usize) -> Vec<Op> {
         let first = l.first().cloned();
         out.push(show_list(&l.iter().filter(|y| Some((*y).clone()) != first).cloned().collect::<Vec<_>>()));
     })));
-    if kind == 0 {
+    if kind == 0 || kind == 4 {
         ops.push(mk("do\n        ll :: l\n        print(map(ll, pu x -> fold(map(ll, pu y -> y * x end), 0, pu y, acc -> acc + y end) end))\n    end".into(), "map(fold(map))", std::sync::Arc::new(|l, out| {
             let ints: Vec<i64> = l.iter().map(|x| if let Val::I(i) = x { *i } else { 0 }).collect();
-            let sum: i64 = ints.iter().sum();
-            out.push(format!("[{}]", ints.iter().map(|x| format!("{}", x * sum)).collect::<Vec<_>>().join(", ")));
+            let sum: i64 = ints.iter().fold(0i64, |a, b| a.wrapping_add(*b));
+            out.push(format!("[{}]", ints.iter().map(|x| format!("{}", x.wrapping_mul(sum))).collect::<Vec<_>>().join(", ")));
         })));
         ops.push(mk("do\n        ll :: l\n        print(fold(ll, 0, pu x, acc -> acc + fold(ll, 0, pu y, inner -> inner + y * x end) end))\n    end".into(), "fold(fold)", std::sync::Arc::new(|l, out| {
             let ints: Vec<i64> = l.iter().map(|x| if let Val::I(i) = x { *i } else { 0 }).collect();
-            let sum: i64 = ints.iter().sum();
-            out.push(format!("{}", sum * sum));
+            let sum: i64 = ints.iter().fold(0i64, |a, b| a.wrapping_add(*b));
+            out.push(format!("{}", sum.wrapping_mul(sum)));
         })));
     }
     match kind {
-        0 => {
-            ops.push(mk("print(map(l, pu x -> x * 10 end))".into(), "map", std::sync::Arc::new(|l, out| out.push(show_list(&l.iter().map(|x| if let Val::I(i) = x { Val::I(i * 10) } else { x.clone() }).collect::<Vec<_>>())))));
+        0 | 4 => {
+            ops.push(mk("print(map(l, pu x -> x * 10 end))".into(), "map", std::sync::Arc::new(|l, out| out.push(show_list(&l.iter().map(|x| if let Val::I(i) = x { Val::I(i.wrapping_mul(10)) } else { x.clone() }).collect::<Vec<_>>())))));
             ops.push(mk("print(fold(l, 0, pu x, acc -> acc * 10 + x end))".into(), "fold", std::sync::Arc::new(|l, out| {
                 let mut acc = 0i64;
                 for x in l.iter() {
